@@ -889,12 +889,37 @@ class Walker:
         atom, negated = atom_norm(c)
         loc = self.unstable_local(c)
         if loc:
-            atom = "%s @%s:%s" % (atom, self.fn.name, blk.tl)
+            named = self.def_named(atom, c, st)
+            atom = named if named is not None else "%s @%s:%s" % (atom, self.fn.name, blk.tl)
         elif mentions_local(c):
             atom = self.origin_text(atom, c, st)
         a = dd.atom(atom)
         hi, lo = (Lf, Lt) if negated else (Lt, Lf)
         return dd.ite(a, hi, lo)
+
+    def def_named(self, atom, c, st):
+        """atom text of a condition over locals that are assigned more than once, named by the one definition that reaches
+        this point (`ncmpio_abort.doUnlink@207`) - the same name the callee context uses for the value (param_context), so
+        that `if (!doUnlink)` here and the callee's test of the parameter are one atom.  None if some local has no single
+        reaching definition."""
+        import re
+        out = atom
+        for x in walk(c, into_pre=True):
+            if x.get("k") == "ref" and x.get("dk") in ("local", "param"):
+                key = lvalue_key(x)
+                if key in self.stable:
+                    continue
+                d = st.get(("$def", key), None)
+                if d is None or not hasattr(d, "single"):
+                    return None
+                try:
+                    line = d.single()
+                except Exception:
+                    return None
+                if line is None:
+                    return None
+                out = re.sub(r"\b%s\b" % re.escape(x["n"]), "%s.%s@%s" % (self.fn.name, x["n"], line), out)
+        return out
 
     def collective_result(self, c, st):
         for x in walk(c, into_pre=True):
